@@ -10,7 +10,9 @@
      Reader.Read(p)                                        error if r.err; EOF when drained; else copy
    Every render draws from the oracles (time, random message id, random boundaries, and for a signed
    message the wrapper boundary): each rendering operation carries the draws it would consume.
-   With S/MIME configured every path goes through signMessage: the render function is a parameter. *)
+   With S/MIME configured every path except WriteToSkipMiddleware goes through signMessage (WriteTo calls
+   it; WriteToSkipMiddleware calls writeMsg directly and emits the unsigned message): the render function
+   is a parameter, and the statements about signed messages exclude that path ([signing_op]). *)
 From Coq Require Import String.
 From Verif Require Import Bytes Writer Smime Builder Setters.
 From Coq Require Import List.
@@ -135,6 +137,9 @@ Section Ref.
 End Ref.
 
 Definition is_edit (x : op) : bool := match x with OEdit _ => true | _ => false end.
+
+(* the operations that sign when S/MIME is configured: all but WriteToSkipMiddleware *)
+Definition signing_op (x : op) : bool := match x with ORender PSkipMw _ _ => false | _ => true end.
 
 (* reading a filled Reader to the end with the given buffer sizes: the data of the successful reads *)
 Fixpoint drain (rd : reader) (sizes : list nat) : bytes :=
